@@ -258,3 +258,31 @@ def replay_api_forward(model, obligation, **kw):
         return dict(confirmed=val is not want, call='segno.%s(**sentinels)' % fname,
                     detail='parameter %r reaches the encoder as %r, must be %r' % (p, val, want))
     return dict(confirmed=None, detail='clause not replayable natively')
+
+
+def replay_padding(model, obligation, version, level):
+    """run the three real writers on a real Buffer of the model's length"""
+    l = int(model.get('stream_length', 0))
+    cap = consts.SYMBOL_CAPACITY[version][_lc(level)]
+    ver = None if version >= 1 else version
+    buff = encoder.Buffer([1] * l)
+    encoder.write_terminator(buff, cap, ver, len(buff))
+    l1 = len(buff)
+    encoder.write_padding_bits(buff, version, len(buff))
+    encoder.write_pad_codewords(buff, version, cap, len(buff))
+    bits = list(buff.getbits())
+    isocap = iso.data_capacity_bits(version, level)
+    want = [1] * l + [iso.stream_bit_after_data(version, level, l, j) for j in range(l, isocap)]
+    got = bits[:isocap]
+    call = 'Buffer([1]*%d); write_terminator; write_padding_bits; write_pad_codewords  (version %s-%s, capacity %d)' % (
+        l, iso.version_name(version), level, cap)
+    if got != want or len(bits) < isocap:
+        k = next((i for i, (a, b) in enumerate(zip(got, want)) if a != b), min(len(got), len(want)))
+        def cw(bs):
+            return ' '.join(''.join(map(str, bs[i:i + 8])) for i in range(l1 - l1 % 8, min(len(bs), l1 - l1 % 8 + 32), 8))
+        return dict(confirmed=True, call=call,
+                    detail='data bits differ from ISO 7.4.9/7.4.10 at bit %d (terminated length %d, total written %d); '
+                           'real codewords from there: %s | ISO: %s' % (k, l1, len(bits), cw(bits), cw(want)))
+    if 'exact_length' in (obligation or '') and len(bits) != isocap:
+        return dict(confirmed=True, call=call, detail='buffer holds %d bits, capacity is %d' % (len(bits), isocap))
+    return dict(confirmed=False, call=call, detail='first %d bits equal the ISO stream' % isocap)
